@@ -123,6 +123,14 @@ func TestVerifC12(t *testing.T) {
 				cfgs = append(cfgs, all[(i*3+wi+int(r.Seed))%len(all)])
 			}
 		}
+		// cue durations equal to the offset of an early segment start inside its UTC second: the cue of the second before then
+		// ends exactly where the segment starts (boundary between "clipped to nothing" and a real cue)
+		for k := int64(1); k <= 2; k++ {
+			_, st, _ := a.LiveSeg(a.Ref, k)
+			if off := int(st * 1000 / a.Ref.Timescale % 1000); off > 0 && st*1000%a.Ref.Timescale == 0 {
+				cfgs = append(cfgs, cfgT{"stpp", "en", "en", off, 0, "number", 0, -1}, cfgT{"wvtt", "en", "en", off, -1, "time", 0, -1})
+			}
+		}
 		N := int64(a.Ref.N())
 		for _, c := range cfgs {
 			var parts []string
